@@ -200,7 +200,7 @@ CHECKS = {
         text="PARTIAL (staged as planned). Coq theorems for the modelled parts: C03_intern / C03_intern_no_duplicates (interning: handle in range, gives the key back, old handles stable, no key stored twice), "
              "C03_canonical (for ANY frame list, building the stack frame by frame and walking the returned index gives the frame list back, and every prefix points to an earlier row), "
              "C03_table_indices (for ANY sequence of label / native frame requests and string conversions, the frame, func, resource, native-symbol and string tables keep equal column lengths and every stored index in range), "
-             "C03_stack_same_handle, C03_finite_paths, C03_ids_unique (pid/tid strings pairwise distinct under any id reuse), C03_thread_refs (the translated index of a thread handle denotes that thread "
+             "C03_stack_frames_in_range, C03_stack_same_handle, C03_finite_paths, C03_ids_unique (pid/tid strings pairwise distinct under any id reuse), C03_thread_refs (the translated index of a thread handle denotes that thread "
              "in the serialized order), C03_sort_permutes, C03_checker_decides (the table checker decides exactly 'all columns have the declared length, every index in range, prefix earlier'). Tied to "
              "fxprof-processed-profile by random API call sequences -> serde_json -> every table of every thread through the verified checker, walked stacks against supplied frames, thread references, "
              "id strings, thread order, and the exact contents of the string / frame / func / resource / native-symbol tables and the used-library order against the model.",
